@@ -215,7 +215,7 @@ def early_and_copied_objects(ck, exe):
     k, b = bytes(range(16)), bytes(i * 0x11 for i in range(16))
     want = wv.run_lines([mdrv, "spec"], ["e aes e %s %s" % (k.hex(), b.hex()), "d aes d %s %s" % (k.hex(), b.hex())], shards=1)
     exp = " ".join([want.get("e", "?"), want.get("d", "?"), hashlib.sha1(b"abc").hexdigest(), hashlib.md5(b"abc").hexdigest(), hashlib.sha256(b"abc").hexdigest()])
-    got = wv.run_lines([exe], ["s sinit"], shards=1, env=ck.env()).get("s", "(no output)")
+    got = wv.run_lines([exe], ["s sinit"], shards=1, env=dict(ck.env(), WV_SINIT="1")).get("s", "(no output)")
     ck.cov["evaluations"] += 1
     if got != exp:
         ck.violation("single-block AES / digests computed during static initialisation of the calling program differ from the standards",
